@@ -5,5 +5,5 @@ def run(chk, ctx):
     chk.cov['rule'] = ("random elections incl. big multipliers and long chains x all rules; scope: raw votes / non-transferable / residual / "
                        "quota of every action; oracle: per action sum <= ballots, shortfall <= 2 ulp x ballots x surplus transfers (Gregory), "
                        "exact under rational, no negative tally/nt/residual, QPQ contribution sum; distinct as in C01")
-    cc.run(chk, ctx, 'values', ORACLES, 1000, 100000, families=['small', 'tie', 'nearquota', 'chain', 'bigmult', 'bigmult', 'mid'])
+    cc.run(chk, ctx, 'values', ORACLES, 1000, 100000, families=['small', 'tie', 'nearquota', 'chain', 'bigmult', 'bigmult', 'hugemult', 'mid', 'withdrawn'])
 def replay(chk, payload): return cc.replay(chk, payload, ORACLES)
